@@ -22,7 +22,8 @@ RULE = ('Generated: a small retrievable world (transmission or emission, isother
         'heteroscedastic errors that is NOT generated from the model, a wrapped sampler (nestle, MultiNest, '
         'PolyChord; external libraries replaced by recording doubles) and a sequence of 4-14 unit-cube points of '
         'which some describe an invalid atmosphere (abundances summing above one).  Non-trivial = >=2 fitted '
-        'parameters with different priors and >=3 bins of unequal error; distinct by case hash.')
+        'parameters with different priors and >=3 bins of unequal error; distinct by case hash.'
+        ' Histories: the optimizer may first be bound to another observation and re-targeted before or AFTER a first likelihood evaluation; a third of the observations carry a fitted parameter of their own (obs_scale) that rescales the data.')
 ASSUMPTIONS = [
     'pymultinest / pypolychord are absent: the doubles implement the documented callback contracts (MultiNest: Prior(cube, ndim, nparams) transforms cube in place, LogLikelihood(cube, ndim, nparams); PolyChord: prior(hypercube) returns the physical vector, loglikelihood(theta) returns (logL, derived)); dyPolyChord is not covered',
     'reference chi^2: an independent model instance with parameters set by name to prior-transformed values, evaluated on the same restricted grid and binned with the C05 overlap-mean reference over [centre - width/2, centre + width/2]; rtol 1e-8',
